@@ -96,6 +96,22 @@ Lemma br_taken_isa op fn fv fc fz : cond_branch op = true ->
   end.
 Proof. intro H. cond_cases H; reflexivity. Qed.
 
+(* ------------------------------------------------------------------ block moves *)
+(* MVP $44, MVN $54: one byte per Step; the instruction is re-executed (PC stays) until the count C wraps, then PC
+   advances by its length 3 *)
+Definition move_op (op : Z) : bool := (op =? 68) || (op =? 84).
+Definition move_mn (mn : ISA.mnem) : bool := match mn with MVN | MVP => true | _ => false end.
+Lemma move_op_isa : forallb (fun op => Bool.eqb (move_op op) (move_mn (ISA.mnem_of op))) (map Z.of_nat (seq 0 256)) = true.
+Proof. vm_compute. reflexivity. Qed.
+Lemma move_cases op : move_op op = true -> op = 68 \/ op = 84.
+Proof. unfold move_op. intro H. apply orb_true_iff in H. destruct H as [H|H]; apply Z.eqb_eq in H; auto. Qed.
+Lemma move_not_straight op : move_op op = true -> straight op = false /\ cond_branch op = false.
+Proof. intro H. destruct (move_cases op H) as [->| ->]; split; reflexivity. Qed.
+Lemma move_length op m8 x8 : move_op op = true -> ISA.op_length op m8 x8 = 3.
+Proof. intro H. destruct (move_cases op H) as [->| ->]; destruct m8, x8; reflexivity. Qed.
+Lemma move_new_mx op m x o : move_op op = true -> new_m op m o = m /\ new_x op x o = x.
+Proof. intro H. destruct (move_cases op H) as [->| ->]; split; reflexivity. Qed.
+
 (* ------------------------------------------------------------------ the abstract CPU *)
 Section Abstract.
   Variable S : Type.
@@ -105,7 +121,7 @@ Section Abstract.
   Variable gmem : S -> Z -> Z.
   Variable wrote : S -> S -> Z -> Prop.       (* the step reported a write to this address *)
   Variables gfn gfv gfc gfz : S -> Z.         (* status flags N V C Z as 0 / 1 *)
-  Variable brs : Z -> bool.                   (* the conditional-branch opcodes admitted in programs *)
+  Variable brs : Z -> bool.                   (* the conditional-branch (and block-move) opcodes admitted in programs *)
 
   Definition ok_ranges : Prop := forall s, ok s ->
     0 <= gpc s < 65536 /\ 0 <= grk s < 256 /\ (gm s = 0 \/ gm s = 1) /\ (gx s = 0 \/ gx s = 1).
@@ -178,13 +194,14 @@ Section Abstract.
   Definition xbit (e : em) : Z := if IsX16bit e then 0 else 1.
 
   (* what an instruction method call must amount to (shown for the regenerated descriptors by [couple_ok]):
-     byte-valued, opcode first and straight-line or an admitted conditional branch, as many bytes as the emit routine
+     byte-valued, opcode first and straight-line or an admitted conditional branch / block move, as many bytes as the emit routine
      advances by, a label operand only with a conditional branch,
      tracker update exactly for REP / SEP with the emitted mask, and -- whenever the width guard lets the
      call through -- as long as the architectural length under the TRACKED widths *)
   Definition ins_ok (k : ikind) (d : list Z) (l : lbl) (t : track) (g : Emitter.guard) : Prop :=
     exists opc rest,
-      d = opc :: rest /\ (straight opc = true \/ (cond_branch opc = true /\ brs opc = true)) /\ bytes_ok d /\
+      d = opc :: rest /\
+      (straight opc = true \/ (cond_branch opc = true /\ brs opc = true) \/ (move_op opc = true /\ brs opc = true)) /\ bytes_ok d /\
       zlen d = ins_len k /\ (is_label_kind k = true -> cond_branch opc = true) /\
       (forall e, guard_ok g e = true -> zlen d = ISA.op_length opc (negb (IsM16bit e)) (negb (IsX16bit e))) /\
       match t with
@@ -409,6 +426,319 @@ Section Abstract.
   Hypothesis Hrng : ok_ranges.
   Hypothesis Hcon : len_contract.
   Hypothesis Hbr : br_contract.
+  (* ---------------------------------------------------------------- with block moves: the stuttering simulation *)
+  (* the clause for MVN / MVP: one Step keeps the bank and the widths, and either leaves PC on the instruction or
+     advances it by the length 3 *)
+  Definition mv_contract : Prop := forall s op, ok s -> brs op = true -> move_op op = true -> opcode_at s = op ->
+    exists s', step s = Some s' /\ ok s' /\ grk s' = grk s /\ gm s' = gm s /\ gx s' = gx s /\
+      (gpc s' = gpc s \/ gpc s' = (gpc s + 3) mod 65536) /\
+      forall a, gmem s' a = gmem s a \/ wrote s s' a.
+  Hypothesis Hmv : mv_contract.
+
+  (* each instruction start a, repeated c times *)
+  Fixpoint expand (st : list Z) (cs : list nat) : list Z :=
+    match st, cs with
+    | a :: st', c :: cs' => repeat a c ++ expand st' cs'
+    | _, _ => []
+    end.
+  (* per instruction call: is it a block move? *)
+  Fixpoint movs (ops : list op) : list bool :=
+    match ops with
+    | [] => []
+    | OIns _ d _ _ _ :: r => (match d with opc :: _ => move_op opc | [] => false end) :: movs r
+    | _ :: r => movs r
+    end.
+
+  (* outcome of at most N steps from s: k <= N steps were taken, all of them opcode fetches at instruction starts, in
+     order, an instruction being fetched more than once only if it is a block move; and either the program is finished
+     (state as in C07_couple) or the N steps are used up *)
+  Definition walk (ops : list op) (e ef : em) (bank : Z) (N : nat) (s : S) : Prop :=
+    exists k cs l sf, (k <= N)%nat /\ fetches k s = Some (l, sf) /\ l = expand (starts ops e) cs /\
+      (List.length cs <= List.length (starts ops e))%nat /\ Forall (fun c => (1 <= c)%nat) cs /\
+      Forall2 (fun (mv : bool) c => mv = false -> c = 1%nat) (firstn (List.length cs) (movs ops)) cs /\
+      ((List.length cs = List.length (starts ops e) /\ ok sf /\ grk sf = bank /\ gpc sf = address ef mod 65536 /\
+        gm sf = mbit ef /\ gx sf = xbit ef) \/ k = N).
+
+  Lemma fetches_length : forall k s l sf, fetches k s = Some (l, sf) -> List.length l = k.
+  Proof.
+    induction k as [|k IH]; intros s l sf H; cbn [fetches] in H.
+    - injection H as <- _. reflexivity.
+    - destruct (step s) as [s'|]; [|discriminate]. destruct (fetches k s') as [[l' sf']|] eqn:E; [|discriminate].
+      injection H as <- _. cbn [List.length]. f_equal. eapply IH. exact E.
+  Qed.
+
+  Lemma nowrite_mono_range : forall m s lo hi lo' hi', lo <= lo' -> hi' <= hi -> nowrite m s lo hi -> nowrite m s lo' hi'.
+  Proof. exact nowrite_mono. Qed.
+
+  Lemma starts_len_movs : forall ops e, List.length (movs ops) = List.length (starts ops e).
+  Proof.
+    induction ops as [|o r IH]; intro e; [reflexivity|].
+    destruct o; cbn [movs starts app List.length]; try (f_equal); apply IH.
+  Qed.
+
+  Lemma simulation_mv : forall ops e b bank delta,
+    straightline ops e -> buf e = Some b -> 0 <= n e <= zlen b ->
+    let ef := fst (run ops e) in
+    0 <= bank < 256 -> address e = delta + n e ->
+    bank * 65536 <= address e -> delta + n ef <= (bank + 1) * 65536 ->
+    forall N s,
+    (forall i, n e <= i < n ef -> hole ops e i = false -> gmem s (delta + i) = znth (code ef) i) ->
+    ok s -> grk s = bank -> gpc s = address e mod 65536 -> gm s = mbit e -> gx s = xbit e ->
+    nowrite N s (delta + n e) (delta + n ef) ->
+    nottaken N s ->
+    walk ops e ef bank N s.
+  Proof.
+    induction ops as [|o r IH]; intros e b bank delta Hsl Hb Hn ef Hbank Hdelta Hlo Hhi.
+    - intros N s Hload Hok Hrk Hpc Hm Hx Hnw Hnt. subst ef. cbn [run fst] in *.
+      exists O, [], [], s. cbn [starts fetches expand List.length movs firstn].
+      split; [lia|]. split; [reflexivity|]. split; [reflexivity|]. split; [lia|]. split; [constructor|]. split; [constructor|].
+      left. repeat split; assumption.
+    - cbn [straightline] in Hsl. destruct Hsl as [Hop [Hacc Hr]].
+      assert (Hef : ef = fst (run r (state_of (exec o e)))).
+      { subst ef. cbn [run]. destruct (run r (state_of (exec o e))); reflexivity. }
+      destruct (code_prefix_stable (o :: r) e b ltac:(cbn [straightline]; auto) Hb Hn) as [bf0 [_ [_ [Hnf _]]]].
+      fold ef in Hnf.
+      assert (Hquiet : (forall k d l t g, o <> OIns k d l t g) ->
+                forall N s,
+                (forall i, n e <= i < n ef -> hole (o :: r) e i = false -> gmem s (delta + i) = znth (code ef) i) ->
+                ok s -> grk s = bank -> gpc s = address e mod 65536 -> gm s = mbit e -> gx s = xbit e ->
+                nowrite N s (delta + n e) (delta + n ef) -> nottaken N s -> walk (o :: r) e ef bank N s).
+      { intros Hni N s Hload Hok Hrk Hpc Hm Hx Hnw Hnt. destruct (quiet_op o e Hop Hni) as [A [B [C [D E]]]].
+        assert (Hst : starts (o :: r) e = starts r (state_of (exec o e))).
+        { cbn [starts]. destruct o; try reflexivity. exfalso. eapply Hni. reflexivity. }
+        assert (Hmo : movs (o :: r) = movs r).
+        { cbn [movs]. destruct o; try reflexivity. exfalso. eapply Hni. reflexivity. }
+        assert (Hho : forall i, hole (o :: r) e i = hole r (state_of (exec o e)) i).
+        { intro i. cbn [hole]. destruct o; try reflexivity. exfalso. eapply Hni. reflexivity. }
+        unfold walk. rewrite Hst, Hmo. rewrite Hef in *.
+        eapply (IH _ b bank delta); try assumption; try (rewrite ?A, ?B, ?C, ?D, ?E; assumption).
+        intros i Hi Hh. apply Hload; [rewrite <- B; exact Hi | rewrite Hho; exact Hh]. }
+      destruct o as [a|c|c|k d l t g|bs|id|l]; try (apply Hquiet; intros; discriminate).
+      (* an instruction *)
+      clear Hquiet. cbn [sl_op] in Hop.
+      destruct Hop as [opc [rest [Hd [Hstr [Hbytes [Hlen [Hk [Hglen Htr]]]]]]]].
+      destruct (exec_ins_spec k d l t g e b Hb Hacc) as [Hg [Hroom [B1 [N1 [A1 F1]]]]].
+      set (e' := state_of (exec (OIns k d l t g) e)) in *.
+      pose proof (zlen_nonneg _ rest) as Hrest0.
+      assert (Hdl : zlen d = 1 + zlen rest) by (rewrite Hd; apply zlen_cons).
+      assert (Hne' : n e' <= n ef).
+      { destruct (code_prefix_stable r e' (splice b (n e) d) Hr B1) as [bf1 [_ [_ [H1 _]]]].
+        - rewrite N1, zlen_splice by lia. lia.
+        - rewrite <- Hef in H1. lia. }
+      assert (Hcode : forall j, 0 <= j < zlen d -> znth (code ef) (n e + j) = znth d j).
+      { intros j Hj.
+        destruct (code_prefix_stable r e' (splice b (n e) d) Hr B1) as [bf1 [G1 [G2 [G3 G4]]]].
+        { rewrite N1, zlen_splice by lia. lia. }
+        rewrite <- Hef in G1. unfold code. rewrite G1. rewrite G4 by (rewrite N1; lia).
+        rewrite znth_splice_in by lia. f_equal. lia. }
+      assert (Hin : address e + zlen d <= (bank + 1) * 65536) by lia.
+      assert (Hrest_hole : forall i, i <= n e' -> hole r e' i = false).
+      { intros i Hi. apply (hole_before r e' (splice b (n e) d)); [exact Hr | exact B1 | rewrite N1, zlen_splice by lia; lia | exact Hi]. }
+      assert (Hh0 : hole (OIns k d l t g :: r) e (n e) = false).
+      { cbn [hole]. fold e'. rewrite Hrest_hole by (rewrite N1; lia).
+        replace (n e + 1 <=? n e) with false by (symmetry; apply Z.leb_gt; lia). rewrite andb_false_r. reflexivity. }
+      assert (Hh1 : opc = 194 \/ opc = 226 -> zlen d = 2 -> hole (OIns k d l t g :: r) e (n e + 1) = false).
+      { intros Hrs Hz. cbn [hole]. fold e'. rewrite Hrest_hole by (rewrite N1; lia).
+        destruct (is_label_kind k); [|reflexivity].
+        specialize (Hk eq_refl). destruct Hrs as [Hrs|Hrs]; rewrite Hrs in Hk; vm_compute in Hk; discriminate Hk. }
+      assert (Hil : ins_len k = zlen d) by lia.
+      assert (Ha' : address e' = address e + zlen d).
+      { rewrite A1, Hil. apply w32_small. lia. }
+      assert (Hmov : movs (OIns k d l t g :: r) = move_op opc :: movs r) by (cbn [movs]; rewrite Hd; reflexivity).
+      unfold walk. cbn [starts app]. fold e'.
+      (* at most N steps from any state at the start of this instruction *)
+      induction N as [|N IHN]; intros s Hload Hok Hrk Hpc Hm Hx Hnw Hnt.
+      { exists O, [], [], s. cbn [fetches expand List.length firstn].
+        split; [lia|]. split; [reflexivity|]. split; [reflexivity|]. split; [lia|]. split; [constructor|]. split; [constructor|].
+        right. reflexivity. }
+      destruct (Hrng s Hok) as [Rpc [Rrk [Rm Rx]]].
+      assert (Hpc0 : gpc s = address e - bank * 65536).
+      { rewrite Hpc. symmetry. apply Z.mod_unique with bank; lia. }
+      assert (Hfetch : gmem s (addr24 (grk s) (gpc s)) mod 256 = opc).
+      { unfold addr24. rewrite Hrk, Hpc0. replace (bank * 65536 + (address e - bank * 65536)) with (delta + n e) by lia.
+        rewrite Hload by first [lia | exact Hh0]. replace (n e) with (n e + 0) by lia. rewrite Hcode by lia. rewrite Hd. cbn [znth].
+        change (Z.to_nat 0) with O. cbn [nth].
+        assert (Hb0 : is_byte opc) by (rewrite Hd in Hbytes; inversion Hbytes; assumption).
+        apply Z.mod_small. exact Hb0. }
+      assert (Ea : addr24 (grk s) (gpc s) = address e) by (unfold addr24; rewrite Hrk, Hpc0; lia).
+      (* one CPU step *)
+      assert (Hone : exists s', step s = Some s' /\ ok s' /\ grk s' = grk s /\
+                (gpc s' = (gpc s + ISA.op_length opc (gm s =? 1) (gx s =? 1)) mod 65536 \/ (move_op opc = true /\ gpc s' = gpc s)) /\
+                gm s' = new_m opc (gm s) (operand s) /\ gx s' = new_x opc (gx s) (operand s) /\
+                forall a, gmem s' a = gmem s a \/ wrote s s' a).
+      { destruct Hstr as [Hstr | [[Hcb Hbrs] | [Hmo Hbrs]]].
+        - destruct (Hcon s opc Hok Hstr Hfetch) as [s' [A2 [A3 [A4 [A5 [A6 [A7 A8]]]]]]].
+          exists s'. repeat (split; [assumption|]). split; [left; exact A5|]. repeat (split; [assumption|]). exact A8.
+        - cbn [nottaken] in Hnt. destruct Hnt as [Hnt0 _].
+          unfold opcode_at in Hnt0. rewrite Hfetch in Hnt0.
+          destruct (Hbr s opc Hok Hbrs Hcb Hfetch (Hnt0 Hbrs Hcb)) as [s' [A2 [A3 [A4 [A5 [A6 [A7 A8]]]]]]].
+          destruct (cond_new_mx opc (gm s) (gx s) (operand s) Hcb) as [Nm Nx].
+          exists s'. rewrite (cond_length opc _ _ Hcb), Nm, Nx.
+          split; [exact A2|]. split; [exact A3|]. split; [exact A4|]. split; [left; exact A5|]. split; [exact A6|]. split; [exact A7|].
+          intro a. left. apply A8.
+        - destruct (Hmv s opc Hok Hbrs Hmo Hfetch) as [s' [A2 [A3 [A4 [A5 [A6 [A7 A8]]]]]]].
+          destruct (move_new_mx opc (gm s) (gx s) (operand s) Hmo) as [Nm Nx].
+          exists s'. rewrite (move_length opc _ _ Hmo), Nm, Nx.
+          split; [exact A2|]. split; [exact A3|]. split; [exact A4|].
+          split; [destruct A7 as [A7|A7]; [right; split; assumption | left; exact A7]|].
+          split; [exact A5|]. split; [exact A6|]. exact A8. }
+      destruct Hone as [s' [Hstep [Hok' [Hrk' [Hpc' [Hm' [Hx' Hmem']]]]]]].
+      cbn [nowrite] in Hnw. rewrite Hstep in Hnw. destruct Hnw as [Hnw0 Hnw1].
+      cbn [nottaken] in Hnt. rewrite Hstep in Hnt. destruct Hnt as [_ Hnt1].
+      (* memory seen by the rest of the run *)
+      assert (Hload' : forall i, n e <= i < n ef -> hole (OIns k d l t g :: r) e i = false -> gmem s' (delta + i) = znth (code ef) i).
+      { intros i Hi Hh. destruct (Hmem' (delta + i)) as [E|W].
+        - rewrite E. apply Hload; assumption.
+        - exfalso. apply (Hnw0 (delta + i)); [lia | exact W]. }
+      destruct Hpc' as [Hpc' | [Hmo Hpc']].
+      + (* the instruction is finished: PC advanced by its length *)
+        assert (Hl : ISA.op_length opc (gm s =? 1) (gx s =? 1) = zlen d).
+        { rewrite (Hglen e Hg). f_equal.
+          - rewrite Hm. unfold mbit. destruct (IsM16bit e); reflexivity.
+          - rewrite Hx. unfold xbit. destruct (IsX16bit e); reflexivity. }
+        assert (Hmx : gm s' = mbit e' /\ gx s' = xbit e').
+        { rewrite Hm', Hx'. unfold new_m, new_x.
+          destruct t as [|c|c].
+          - destruct Htr as [N1' N2']. apply Z.eqb_neq in N1'. apply Z.eqb_neq in N2'. rewrite N1', N2'.
+            cbn [apply_track] in F1. destruct (mbit_flags e e' F1) as [Q1 Q2]. rewrite Q1, Q2, Hm, Hx. split; reflexivity.
+          - destruct Htr as [Hopc Hrest]. cbn [apply_track] in F1.
+            assert (Hop1 : operand s = c).
+            { unfold operand, addr24. rewrite Hrk, Hpc0.
+              assert (Hz : zlen d = 2) by (rewrite Hdl, Hrest; reflexivity).
+              rewrite (Z.mod_small (address e - bank * 65536 + 1) 65536) by lia.
+              replace (bank * 65536 + (address e - bank * 65536 + 1)) with (delta + (n e + 1)) by lia.
+              rewrite Hload by first [lia | apply Hh1; [left; exact Hopc | exact Hz]]. rewrite Hcode by lia. rewrite Hd, Hrest. cbn [znth]. change (Z.to_nat 1) with 1%nat. cbn [nth].
+              assert (Hb1 : is_byte c) by (rewrite Hd, Hrest in Hbytes; inversion Hbytes as [|? ? _ Hb2]; inversion Hb2; assumption).
+              apply Z.mod_small. exact Hb1. }
+            rewrite Hop1, Hopc. rewrite Z.eqb_refl.
+            destruct (mbit_flags (AssumeREP c e) e' F1) as [Q1 Q2]. destruct (track_rep_m c e) as [T1 T2].
+            rewrite Q1, Q2, T1, T2, Hm, Hx. split; reflexivity.
+          - destruct Htr as [Hopc Hrest]. cbn [apply_track] in F1.
+            assert (Hop1 : operand s = c).
+            { unfold operand, addr24. rewrite Hrk, Hpc0.
+              assert (Hz : zlen d = 2) by (rewrite Hdl, Hrest; reflexivity).
+              rewrite (Z.mod_small (address e - bank * 65536 + 1) 65536) by lia.
+              replace (bank * 65536 + (address e - bank * 65536 + 1)) with (delta + (n e + 1)) by lia.
+              rewrite Hload by first [lia | apply Hh1; [right; exact Hopc | exact Hz]]. rewrite Hcode by lia. rewrite Hd, Hrest. cbn [znth]. change (Z.to_nat 1) with 1%nat. cbn [nth].
+              assert (Hb1 : is_byte c) by (rewrite Hd, Hrest in Hbytes; inversion Hbytes as [|? ? _ Hb2]; inversion Hb2; assumption).
+              apply Z.mod_small. exact Hb1. }
+            rewrite Hop1, Hopc. change (226 =? 194) with false. rewrite Z.eqb_refl.
+            destruct (mbit_flags (AssumeSEP c e) e' F1) as [Q1 Q2]. destruct (track_sep_m c e) as [T1 T2].
+            rewrite Q1, Q2, T1, T2, Hm, Hx. split; reflexivity. }
+        destruct Hmx as [Hm1 Hx1].
+        destruct (IH e' (splice b (n e) d) bank delta Hr B1) with (N := N) (s := s') as [k' [cs' [l' [sf [Hk' [Hf [Hl' [Hlen' [Hge [Hf2 Hfin]]]]]]]]]]; try assumption.
+        * rewrite N1, zlen_splice by lia. lia.
+        * rewrite Ha', N1. lia.
+        * rewrite Ha'. lia.
+        * rewrite <- Hef. exact Hhi.
+        * rewrite <- Hef. intros i Hi Hh. apply Hload'; [rewrite N1 in Hi; lia|].
+          cbn [hole]. fold e'. rewrite Hh. rewrite N1 in Hi.
+          replace (i <? n e + zlen d) with false by (symmetry; apply Z.ltb_ge; lia). rewrite andb_false_r. reflexivity.
+        * rewrite Hrk'. exact Hrk.
+        * rewrite Hpc', Hl, Hpc0, Ha'. replace (address e - bank * 65536 + zlen d) with (address e + zlen d + (- bank) * 65536) by lia.
+          apply Z.mod_add. lia.
+        * rewrite <- Hef. rewrite N1. eapply nowrite_mono; [| |exact Hnw1]; lia.
+        * rewrite <- Hef in Hfin.
+          exists (Datatypes.S k'), (1%nat :: cs'), (address e :: l'), sf.
+          split; [lia|]. split; [cbn [fetches]; rewrite Hstep, Hf, Ea; reflexivity|].
+          split; [cbn [expand repeat app]; rewrite Hl'; reflexivity|].
+          split; [cbn [List.length]; lia|]. split; [constructor; [lia | exact Hge]|].
+          split; [rewrite Hmov; cbn [List.length firstn]; constructor; [intros; reflexivity | exact Hf2]|].
+          destruct Hfin as [[Hc Hfin]|Hfin]; [left; split; [cbn [List.length]; lia | exact Hfin] | right; lia].
+      + (* a block move that repeats itself: same instruction, one step fewer *)
+        assert (Hms : gm s' = mbit e /\ gx s' = xbit e).
+        { destruct (move_new_mx opc (gm s) (gx s) (operand s) Hmo) as [Nm Nx]. rewrite Hm', Hx', Nm, Nx. split; assumption. }
+        destruct Hms as [Hm1 Hx1].
+        destruct (IHN s') as [k' [cs' [l' [sf [Hk' [Hf [Hl' [Hlen' [Hge [Hf2 Hfin]]]]]]]]]]; try assumption.
+        * rewrite Hrk'. exact Hrk.
+        * rewrite Hpc'. exact Hpc.
+        * destruct cs' as [|c cs''].
+          -- (* nothing more was fetched: the steps are used up *)
+             cbn [expand] in Hl'. assert (Hl0 : l' = []) by (rewrite Hl'; destruct (address e :: starts r e'); reflexivity).
+             pose proof (fetches_length _ _ _ _ Hf) as Hk0. rewrite Hl0 in Hk0. cbn [List.length] in Hk0. subst k'.
+             exists 1%nat, [1%nat], [address e], sf.
+             split; [lia|]. split; [cbn [fetches]; rewrite Hstep; rewrite Hl0 in Hf; cbn [fetches] in Hf |- *; injection Hf as <-; rewrite Ea; reflexivity|].
+             split; [cbn [expand repeat app]; destruct (starts r e'); reflexivity|].
+             split; [cbn [List.length]; lia|]. split; [repeat constructor|].
+             split; [rewrite Hmov; cbn [List.length firstn]; constructor; [rewrite Hmo; discriminate | constructor]|].
+             destruct Hfin as [[Hc _]|Hfin]; [cbn [List.length] in Hc; discriminate Hc | right; lia].
+          -- exists (Datatypes.S k'), (Datatypes.S c :: cs''), (address e :: l'), sf.
+             split; [lia|]. split; [cbn [fetches]; rewrite Hstep, Hf, Ea; reflexivity|].
+             split; [cbn [expand repeat app] in Hl' |- *; rewrite Hl'; reflexivity|].
+             split; [exact Hlen'|]. split; [inversion Hge; subst; constructor; [lia | assumption]|].
+             split; [rewrite Hmov in Hf2 |- *; cbn [List.length firstn] in Hf2 |- *; inversion Hf2; subst; constructor; [rewrite Hmo; discriminate | assumption]|].
+             destruct Hfin as [Hfin|Hfin]; [left; exact Hfin | right; lia].
+  Qed.
+
+  (* C07 with block moves, over the abstract CPU: for EVERY number of steps N (the run hypotheses nowrite / nottaken
+     being made for these N steps), the first k <= N steps do not panic and fetch opcodes exactly at the instruction
+     starts the assembler reported, in order, each once -- a block move as often as it repeats itself (its count c >= 1)
+     -- and either the program is finished (state as in C07_couple) or all N steps have been taken inside the program. *)
+  Theorem C07_couple_moves : forall ops e0 b s0 N,
+    straightline ops e0 -> buf e0 = Some b -> 0 <= n e0 <= zlen b ->
+    let ef := fst (run ops e0) in
+    let bank := address e0 / 65536 in
+    0 <= address e0 < 16777216 ->
+    address e0 + (n ef - n e0) <= (bank + 1) * 65536 ->
+    (forall i, 0 <= i < n ef - n e0 -> hole ops e0 (n e0 + i) = false -> gmem s0 (address e0 + i) = znth (Bytes ef) (n e0 + i)) ->
+    ok s0 -> addr24 (grk s0) (gpc s0) = address e0 -> gm s0 = mbit e0 -> gx s0 = xbit e0 ->
+    nowrite N s0 (address e0) (address e0 + (n ef - n e0)) ->
+    nottaken N s0 ->
+    walk ops e0 ef bank N s0.
+  Proof.
+    intros ops e0 b s0 N Hsl Hb Hn ef bank Ha Hfit Hload Hok Hstart Hm Hx Hnw Hnt.
+    destruct (Hrng s0 Hok) as [Rpc [Rrk _]].
+    assert (Hbk : grk s0 = bank /\ gpc s0 = address e0 mod 65536).
+    { unfold addr24 in Hstart. unfold bank. rewrite <- Hstart. split.
+      - apply Z.div_unique_pos with (gpc s0); lia.
+      - apply Z.mod_unique_pos with (grk s0); lia. }
+    destruct Hbk as [Hrk Hpc].
+    assert (Hbank : 0 <= bank < 256).
+    { rewrite <- Hrk. exact Rrk. }
+    assert (Hlo : bank * 65536 <= address e0).
+    { unfold bank. pose proof (Z.mul_div_le (address e0) 65536 ltac:(lia)). lia. }
+    destruct (code_prefix_stable ops e0 b Hsl Hb Hn) as [bf [G1 [G2 [G3 _]]]]. fold ef in G1, G3.
+    apply (simulation_mv ops e0 b bank (address e0 - n e0) Hsl Hb Hn); try assumption; try lia.
+    - fold ef. lia.
+    - fold ef. intros i Hi Hh. replace (address e0 - n e0 + i) with (address e0 + (i - n e0)) by lia.
+      rewrite Hload by (try lia; replace (n e0 + (i - n e0)) with i by lia; exact Hh).
+      unfold Bytes. rewrite znth_ztake by lia. f_equal. lia.
+    - fold ef. replace (address e0 - n e0 + n e0) with (address e0) by lia.
+      replace (address e0 - n e0 + n ef) with (address e0 + (n ef - n e0)) by lia. exact Hnw.
+  Qed.
+
+  (* reading [expand]: removing consecutive duplicates from the fetch list gives back the instruction starts reached
+     (adjacent instruction starts differ: the addresses increase) *)
+  Fixpoint dedup (l : list Z) : list Z :=
+    match l with
+    | [] => []
+    | a :: r => match r with b :: _ => if a =? b then dedup r else a :: dedup r | [] => [a] end
+    end.
+  Fixpoint adjacent_differ (l : list Z) : Prop :=
+    match l with a :: ((b :: _) as r) => a <> b /\ adjacent_differ r | _ => True end.
+  Lemma dedup_repeat_app : forall a c l, (1 <= c)%nat -> match l with b :: _ => a <> b | [] => True end ->
+    dedup (repeat a c ++ l) = a :: dedup l.
+  Proof.
+    intros a c l Hc Hl. destruct c as [|c]; [lia|]. clear Hc. induction c as [|c IH].
+    - cbn [repeat app]. destruct l as [|b l']; [reflexivity|]. cbn [dedup]. apply Z.eqb_neq in Hl. rewrite Hl. reflexivity.
+    - change (repeat a (Datatypes.S (Datatypes.S c)) ++ l) with (a :: (a :: repeat a c ++ l)).
+      cbn [dedup]. rewrite Z.eqb_refl. exact IH.
+  Qed.
+  Lemma dedup_expand : forall st cs, adjacent_differ st -> Forall (fun c => (1 <= c)%nat) cs -> (List.length cs <= List.length st)%nat ->
+    dedup (expand st cs) = firstn (List.length cs) st.
+  Proof.
+    induction st as [|a st IH]; intros cs Had Hge Hlen.
+    - destruct cs; [reflexivity | cbn [List.length] in Hlen; lia].
+    - destruct cs as [|c cs]; [reflexivity|]. cbn [expand List.length firstn]. inversion Hge as [|? ? Hc Hge']; subst.
+      cbn [List.length] in Hlen.
+      assert (Had' : adjacent_differ st) by (destruct st; [exact I | destruct Had; assumption]).
+      rewrite dedup_repeat_app; [rewrite IH by (try assumption; lia); reflexivity | exact Hc |].
+      destruct st as [|b st']; [destruct cs; exact I|]. destruct cs as [|c2 cs2]; [exact I|].
+      cbn [expand]. inversion Hge' as [|? ? Hc2 _]; subst. destruct c2 as [|c2]; [lia|]. cbn [repeat app]. destruct Had as [Hab _]. exact Hab.
+  Qed.
+
+  (* the exact theorems (fetch addresses = starts) do not admit block moves: those stutter, see C07_couple_moves *)
+  Hypothesis Hnomv : forall op, move_op op = true -> brs op = false.
 
   (* invariant between the assembler state e (before the remaining calls) and the CPU state s:
      delta = address - count is the load offset; everything emitted from here on is in memory, except that
@@ -484,7 +814,7 @@ Section Abstract.
                 gpc s' = (gpc s + ISA.op_length opc (gm s =? 1) (gx s =? 1)) mod 65536 /\
                 gm s' = new_m opc (gm s) (operand s) /\ gx s' = new_x opc (gx s) (operand s) /\
                 forall a, gmem s' a = gmem s a \/ wrote s s' a).
-      { destruct Hstr as [Hstr | [Hcb Hbrs]]; [exact (Hcon s opc Hok Hstr Hfetch)|].
+      { destruct Hstr as [Hstr | [[Hcb Hbrs] | [Hmo Hbrs]]]; [exact (Hcon s opc Hok Hstr Hfetch)| |rewrite (Hnomv opc Hmo) in Hbrs; discriminate Hbrs].
         cbn [starts app List.length nottaken] in Hnt. destruct Hnt as [Hnt0 _].
         unfold opcode_at in Hnt0. rewrite Hfetch in Hnt0.
         destruct (Hbr s opc Hok Hbrs Hcb Hfetch (Hnt0 Hbrs Hcb)) as [s' [A2 [A3 [A4 [A5 [A6 [A7 A8]]]]]]].
@@ -646,7 +976,7 @@ Theorem C07_couple_nobranch : forall S step ok gpc grk gm gx gmem wrote,
 Proof.
   intros S step ok gpc grk gm gx gmem wrote Hrng Hcon ops e0 b s0 Hsl Hb Hn ef bank Ha Hfit Hload Hok Hst Hm Hx Hnw.
   apply (C07_couple S step ok gpc grk gm gx gmem wrote (fun _ => 0) (fun _ => 0) (fun _ => 0) (fun _ => 0) (fun _ => false)
-           Hrng Hcon ltac:(intros s op _ Hf; discriminate Hf) ops e0 b s0); try assumption.
+           Hrng Hcon ltac:(intros s op _ Hf; discriminate Hf) ltac:(intros; reflexivity) ops e0 b s0); try assumption.
   apply nottaken_none.
 Qed.
 
@@ -698,7 +1028,7 @@ Definition bexp_byte (b : bexp) : bool := match b with BConst v => (0 <=? v) && 
 Definition couple_ok (brs : Z -> bool) (d : desc) : bool :=
   match d_bytes d, kind_of (d_kind d) with
   | BConst opc :: rest, Some k =>
-      (straight opc || cond_branch opc && brs opc) && forallb bexp_byte (d_bytes d) && (negb (is_label_kind k) || cond_branch opc)
+      (straight opc || (cond_branch opc || move_op opc) && brs opc) && forallb bexp_byte (d_bytes d) && (negb (is_label_kind k) || cond_branch opc)
       && (1 + EmitSpec.zlength rest =? ins_len k)
       && forallb (fun mx : bool * bool =>
                     panics_b (d_guard d) (fst mx) (snd mx)
@@ -732,7 +1062,7 @@ Proof.
   intros brs d args l H Hargs. unfold couple_ok in H. unfold op_of_call_l.
   destruct (d_bytes d) as [|[opc|? ?] rest] eqn:Eb; try discriminate.
   destruct (kind_of (d_kind d)) as [k|] eqn:Ek; [|discriminate].
-  remember (straight opc || cond_branch opc && brs opc) as st eqn:Hst.
+  remember (straight opc || (cond_branch opc || move_op opc) && brs opc) as st eqn:Hst.
   remember (negb (is_label_kind k) || cond_branch opc) as lk eqn:Hlk.
   repeat (apply andb_true_iff in H; destruct H as [H ?]).
   subst st lk. rename H into Hstr, H0 into Heff, H1 into Hlens, H2 into Hk, H3 into Hnl, H4 into Hby.
@@ -743,7 +1073,7 @@ Proof.
   { rewrite Hem. unfold zlen, EmitSpec.zlength. cbn [List.length]. rewrite map_length. lia. }
   exists opc, (map (eval_b args) rest). split; [exact Hem|]. split.
   { apply orb_true_iff in Hstr. destruct Hstr as [Hs|Hs]; [left; exact Hs|].
-    right. apply andb_true_iff in Hs. exact Hs. }
+    right. apply andb_true_iff in Hs. destruct Hs as [Hs Hb]. apply orb_true_iff in Hs. destruct Hs as [Hs|Hs]; [left | right]; split; assumption. }
   split.
   { unfold emit_bytes, bytes_ok. rewrite Forall_forall. intros v Hv. apply in_map_iff in Hv. destruct Hv as [bx [<- Hin]].
     apply eval_b_byte. rewrite forallb_forall in Hby. apply Hby. rewrite <- Eb. exact Hin. }
@@ -809,7 +1139,7 @@ Definition ex_ops : list op :=
     OIns E3 [162; 1; 2] nolbl TNone GX16 ].         (* LDX #$0201 *)
 
 Ltac ex_ins :=
-  eexists; eexists; split; [reflexivity|]; split; [first [left; reflexivity | right; split; reflexivity]|]; split;
+  eexists; eexists; split; [reflexivity|]; split; [first [left; reflexivity | right; left; split; reflexivity | right; right; split; reflexivity]|]; split;
   [ repeat constructor; unfold is_byte; lia |]; split; [reflexivity|]; split; [first [discriminate | reflexivity]|]; split;
   [ intros e; unfold guard_ok; destruct (IsM16bit e), (IsX16bit e); cbn; intro; try reflexivity; try discriminate
   | cbn; try (split; [reflexivity | reflexivity]); try (split; discriminate) ].
@@ -855,5 +1185,5 @@ Proof. reflexivity. Qed.
 Example ex_branch_excluded : ~ straightline (fun _ => false) ex_ops_br ex_e0.
 Proof.
   unfold ex_ops_br. cbn [straightline]. intros [_ [_ [_ [_ [[opc [rest [Hd [Hs _]]]] _]]]]].
-  injection Hd as <- _. destruct Hs as [Hs|[_ Hs]]; discriminate Hs.
+  injection Hd as <- _. destruct Hs as [Hs|[[_ Hs]|[_ Hs]]]; discriminate Hs.
 Qed.
